@@ -2792,13 +2792,24 @@ class SQLCompiler(Compiled):
             # row[text()] produces a result
             add_to_result_map(None, None, (textclause,), sqltypes.NULLTYPE)
 
-        # un-escape any \:params
-        return BIND_PARAMS_ESC.sub(
-            lambda m: m.group(1),
-            BIND_PARAMS.sub(
-                do_bindparam, self.post_process_text(textclause.text)
-            ),
+        # un-escape any \:params.  the un-escaping applies to the text
+        # given by the user only, never to what a bound parameter rendered
+        # (a literal_binds value may itself contain "\:")
+        text = self.post_process_text(textclause.text)
+        parts = []
+        pos = 0
+        for m in BIND_PARAMS.finditer(text):
+            parts.append(
+                BIND_PARAMS_ESC.sub(
+                    lambda esc: esc.group(1), text[pos : m.start()]
+                )
+            )
+            parts.append(do_bindparam(m))
+            pos = m.end()
+        parts.append(
+            BIND_PARAMS_ESC.sub(lambda esc: esc.group(1), text[pos:])
         )
+        return "".join(parts)
 
     def visit_tstring(self, tstring, add_to_result_map=None, **kw):
         if self._collect_params:
